@@ -18,6 +18,8 @@ is not in this model: the race detector run of the harness looks at that).
 * `rooting_writer_breaks`: an entry point that stores the caller's document in the shared object
   (a filter rooted in place, the shape of seeded change C08-m7) makes another caller's result
   depend on the schedule;
+* `rootedInPlace_result` / `rootedInPlace_mem` / `rootedInPlace_writes_shared`: the same at the level of Go
+  slices — `rx := x[:i]` + `append` returns what `make` + `copy` returns and overwrites the shared path;
 * `reRegister_*`: the already-registered branch of `registerComposer` — with the guard
   `if fun != nil` a look-up with `nil` leaves the entry alone; without it the registered function
   is lost (seeded change C08-m8). -/
@@ -168,5 +170,262 @@ theorem unguarded_reRegister_breaks :
     (exec ⟨Comp.mk (some ()), fun _ => none⟩
       ([⟨0, recompInto false, 1⟩, ⟨1, recompCreate, 2⟩].filter fun c => c.g = 1)).loc 1 = some (2, true) := by
   constructor <;> rfl
+
+/-! ## The rooted copy at the level of Go slices
+
+`Expr.rootedFilters` hands Locate / Walk a copy of the path whose filters are bound to the document.
+Here the path is a list of fragments lying at the front of its backing array `mem` (`x = mem[:n]`,
+`cap(x) = len(mem)`), and the two ways of building the copy are modelled with their STORES:
+`rootedCopy` (make + copy: every store goes to a new array) and `rootedInPlace` (`rx := x[:i]`, then
+`append` — within capacity, so Go's append stores into `mem`). Both RETURN the same path
+(`rootedInPlace_result`: no test that looks at the returned value can tell), the second leaves the
+shared path itself rooted (`rootedInPlace_mem`), which is a change whenever the path has a filter not
+already bound to that document (`rootedInPlace_writes_shared`). -/
+
+/-- a path fragment: anything but a filter (`child`), or a filter with the document its `$` is bound to -/
+inductive Frag where
+  | child (k : Nat)
+  | filter (root : Option Nat)
+  deriving DecidableEq, Repr
+
+def Frag.isFilter : Frag → Bool
+  | .filter _ => true
+  | .child _ => false
+
+/-- `(*Filter).withRoot`: a filter becomes a filter bound to `d`; other fragments are kept -/
+def Frag.withRoot (d : Nat) : Frag → Frag
+  | .filter _ => .filter (some d)
+  | f => f
+
+/-- index of the first filter (the length if there is none) -/
+def firstFilter (x : List Frag) : Nat := (x.takeWhile fun f => !f.isFilter).length
+
+theorem firstFilter_le (x : List Frag) : firstFilter x ≤ x.length := by
+  unfold firstFilter
+  induction x with
+  | nil => simp
+  | cons f r ih =>
+    simp only [List.takeWhile]
+    split
+    · simp only [List.length_cons]; omega
+    · simp
+
+/-- `rootedFilters` as it is: `rx := make(Expr, len(x)); copy(rx, x); for ; i < len(rx); i++ { rx[i] = withRoot }` —
+every store goes to the new array; the value returned -/
+def rootedCopy (d : Nat) (x : List Frag) : List Frag :=
+  x.take (firstFilter x) ++ (x.drop (firstFilter x)).map (Frag.withRoot d)
+
+/-- `for _, f = range x[i:] { rx = append(rx, withRoot f) }` with `rx := x[:i]`: `len(rx) < len(x) ≤ cap(rx)` at
+every append, so Go's append stores at index `len(rx)` of the backing array of `x` (the fragments ranged
+over are read before the store at the same index) -/
+def appendLoop (d : Nat) : List Frag → Nat → List Frag → List Frag
+  | mem, _, [] => mem
+  | mem, len, f :: r => appendLoop d (mem.set len (f.withRoot d)) (len + 1) r
+
+private theorem set_at_length (pre : List Frag) (f v : Frag) (rest : List Frag) :
+    (pre ++ f :: rest).set pre.length v = pre ++ v :: rest := by
+  induction pre with
+  | nil => rfl
+  | cons a p ih => simp [ih]
+
+theorem appendLoop_eq (d : Nat) (todo pre post : List Frag) :
+    appendLoop d (pre ++ todo ++ post) pre.length todo = pre ++ todo.map (Frag.withRoot d) ++ post := by
+  induction todo generalizing pre with
+  | nil => simp [appendLoop]
+  | cons f r ih =>
+    have h1 : pre ++ f :: r ++ post = pre ++ f :: (r ++ post) := by simp
+    have h2 : (pre ++ [f.withRoot d]).length = pre.length + 1 := by simp
+    simp only [appendLoop]
+    rw [h1, set_at_length, ← h2]
+    have h3 : pre ++ f.withRoot d :: (r ++ post) = (pre ++ [f.withRoot d]) ++ r ++ post := by simp
+    rw [h3, ih]
+    simp
+
+/-- the variant of seeded change C08-m7 over the backing array `mem` of the shared path `x = mem[:n]`:
+(the value returned, the backing array afterwards) -/
+def rootedInPlace (d : Nat) (mem : List Frag) (n : Nat) : List Frag × List Frag :=
+  let x := mem.take n
+  let mem' := appendLoop d mem (firstFilter x) (x.drop (firstFilter x))
+  (mem'.take n, mem')
+
+/-- the backing array of the shared path afterwards: the ROOTED path, then whatever lay behind it -/
+theorem rootedInPlace_mem (d : Nat) (mem : List Frag) (n : Nat) :
+    (rootedInPlace d mem n).2 = rootedCopy d (mem.take n) ++ mem.drop n := by
+  unfold rootedInPlace rootedCopy
+  simp only
+  have hle := firstFilter_le (mem.take n)
+  have hlen : ((mem.take n).take (firstFilter (mem.take n))).length = firstFilter (mem.take n) := by
+    rw [List.length_take]; omega
+  have hmem : mem = (mem.take n).take (firstFilter (mem.take n)) ++ (mem.take n).drop (firstFilter (mem.take n)) ++ mem.drop n := by
+    rw [List.take_append_drop, List.take_append_drop]
+  conv => lhs; arg 2; rw [hmem]
+  conv => lhs; arg 3; rw [← hlen]
+  exact appendLoop_eq d _ _ _
+
+/-- both variants RETURN the same path: a caller that looks only at what its own call returns cannot
+tell them apart (the library's tests pass with the seeded change) -/
+theorem rootedInPlace_result (d : Nat) (mem : List Frag) (n : Nat) (h : n ≤ mem.length) :
+    (rootedInPlace d mem n).1 = rootedCopy d (mem.take n) := by
+  have hm := rootedInPlace_mem d mem n
+  have : (rootedInPlace d mem n).1 = ((rootedInPlace d mem n).2).take n := rfl
+  rw [this, hm]
+  have hl : (rootedCopy d (mem.take n)).length = n := by
+    unfold rootedCopy
+    simp only [List.length_append, List.length_map, List.length_take, List.length_drop]
+    have := firstFilter_le (mem.take n)
+    simp only [List.length_take] at this
+    omega
+  rw [List.take_append_of_le_length (by omega), List.take_of_length_le (by omega)]
+
+/-- … but the in-place variant leaves the SHARED path rooted at the caller's document: every filter of it is
+now bound to `d`, for whoever uses the path next (`rootOr` in Get / First takes the bound root) -/
+theorem rootedInPlace_shared_path (d : Nat) (mem : List Frag) (n : Nat) (h : n ≤ mem.length) :
+    ((rootedInPlace d mem n).2).take n = rootedCopy d (mem.take n) :=
+  rootedInPlace_result d mem n h
+
+/-- `$.items[?(@.v == $.want)].name` parsed (length 4, capacity 4), Locate on a document `7`:
+returned value equal, shared path overwritten by the in-place variant only -/
+example : rootedCopy 7 [.child 0, .child 1, .filter none, .child 2] = [.child 0, .child 1, .filter (some 7), .child 2] := by decide
+example : rootedInPlace 7 [.child 0, .child 1, .filter none, .child 2] 4 =
+    ([.child 0, .child 1, .filter (some 7), .child 2], [.child 0, .child 1, .filter (some 7), .child 2]) := by decide
+
+
+private theorem map_eq_self_imp (g : Frag → Frag) : ∀ (l : List Frag), l.map g = l → ∀ a ∈ l, g a = a
+  | [], _, a, ha => by cases ha
+  | b :: r, h, a, ha => by
+    simp only [List.map_cons, List.cons.injEq] at h
+    rcases List.mem_cons.mp ha with rfl | hr
+    · exact h.1
+    · exact map_eq_self_imp g r h.2 a hr
+
+private theorem mem_drop_firstFilter (x : List Frag) (f : Frag) (hf : f ∈ x) (hfil : f.isFilter = true) :
+    f ∈ x.drop (firstFilter x) := by
+  unfold firstFilter
+  induction x with
+  | nil => cases hf
+  | cons a r ih =>
+    simp only [List.takeWhile]
+    split
+    · rename_i hna
+      rcases List.mem_cons.mp hf with rfl | hr
+      · simp [hfil] at hna
+      · simpa using ih hr
+    · simpa using hf
+
+/-- rooting changes the path whenever it holds a filter that is not already bound to that very document -/
+theorem rootedCopy_ne (d : Nat) (x : List Frag) (r : Option Nat) (hr : r ≠ some d) (hf : Frag.filter r ∈ x) :
+    rootedCopy d x ≠ x := by
+  intro h
+  have hx : x = x.take (firstFilter x) ++ x.drop (firstFilter x) := (List.take_append_drop _ _).symm
+  unfold rootedCopy at h
+  have h' : x.take (firstFilter x) ++ (x.drop (firstFilter x)).map (Frag.withRoot d) =
+      x.take (firstFilter x) ++ x.drop (firstFilter x) := by rw [h]; exact hx
+  have := map_eq_self_imp (Frag.withRoot d) _ (List.append_cancel_left h') (Frag.filter r)
+    (mem_drop_firstFilter x _ hf rfl)
+  simp only [Frag.withRoot, Frag.filter.injEq] at this
+  exact hr this.symm
+
+/-- so the in-place variant DOES change the shared path (same hypothesis) -/
+theorem rootedInPlace_writes_shared (d : Nat) (mem : List Frag) (n : Nat) (h : n ≤ mem.length) (r : Option Nat)
+    (hr : r ≠ some d) (hf : Frag.filter r ∈ mem.take n) :
+    ((rootedInPlace d mem n).2).take n ≠ mem.take n := by
+  rw [rootedInPlace_shared_path d mem n h]
+  exact rootedCopy_ne d _ r hr hf
+
+/-! ## The registry with short and full names
+
+`r.composers` files an entry under the type's short name and under its full name. Two same-named types
+of two packages share the short-name key (the later registration owns it); the other one is found by
+its full name only: `recomp` then goes through `registerComposer(rt, nil)` and lands in the
+already-registered branch. `lookup_registered`: for EVERY registry and every registered type that
+look-up writes nothing; `lookup_unguarded_loses_fn`: with the unguarded assignment (seeded change
+C08-m8) the function registered for the shadowed type is wiped. -/
+
+/-- a struct type as the registry sees it: identity, short name (`rt.Name()`), full name (`PkgPath/Name`) -/
+structure Ty where
+  id : Nat
+  short : String
+  full : String
+
+/-- `*composer`: the type it belongs to and its RecomposeFunc (by identity), if any -/
+structure CompE where
+  rtype : Nat
+  fn : Option Nat
+  deriving DecidableEq, Repr
+
+/-- `r.composers`: names to entries BY REFERENCE (an entry is filed under its short and its full name: one
+object, two keys); the most recent assignment to a key is the one found -/
+structure Regy where
+  names : List (String × Nat)
+  ents : List CompE
+  deriving DecidableEq, Repr
+
+def Regy.find (r : Regy) (k : String) : Option Nat := r.names.lookup k
+
+/-- the not-yet-registered branch: a new entry under both names -/
+def Regy.fresh (r : Regy) (t : Ty) (f : Option Nat) : Regy × Nat :=
+  ({ names := (t.short, r.ents.length) :: (t.full, r.ents.length) :: r.names, ents := r.ents ++ [⟨t.id, f⟩] },
+   r.ents.length)
+
+/-- `registerComposer(rt, fun)` without the field walk: `c := r.composers[full]; if c == nil || c.rtype != rt
+{ new entry under short and full } else { if fun != nil { c.fun = fun } }` (`guarded = false`: the
+assignment without its `if`) -/
+def registerComposer (guarded : Bool) (r : Regy) (t : Ty) (f : Option Nat) : Regy × Nat :=
+  match r.find t.full with
+  | some i =>
+    match r.ents[i]? with
+    | some c =>
+      if c.rtype = t.id then
+        (if guarded then
+          (match f with
+            | some x => { r with ents := r.ents.set i { c with fn := some x } }
+            | none => r)
+         else { r with ents := r.ents.set i { c with fn := f } }, i)
+      else r.fresh t f
+    | none => r.fresh t f
+  | none => r.fresh t f
+
+/-- `recomp` filling a value of struct type `t`: `c := r.composers[rt.Name()]; if c == nil || c.rtype != rt
+{ c, _ = r.registerComposer(rt, nil) }` -/
+def lookup (guarded : Bool) (r : Regy) (t : Ty) : Regy × Nat :=
+  match r.find t.short with
+  | some i =>
+    match r.ents[i]? with
+    | some c => if c.rtype = t.id then (r, i) else registerComposer guarded r t none
+    | none => registerComposer guarded r t none
+  | none => registerComposer guarded r t none
+
+/-- `t` was registered beforehand: its full name leads to an entry of that very type -/
+def Regy.Registered (r : Regy) (t : Ty) : Prop :=
+  ∃ i c, r.find t.full = some i ∧ r.ents[i]? = some c ∧ c.rtype = t.id
+
+theorem registerComposer_registered_nil (r : Regy) (t : Ty) (h : r.Registered t) :
+    (registerComposer true r t none).1 = r := by
+  obtain ⟨i, c, hf, he, ht⟩ := h
+  simp [registerComposer, hf, he, ht]
+
+/-- **filling a value of a registered type writes nothing** — neither the map nor any entry — whoever owns
+the short name (no type, this type, or a same-named type of another package registered later) -/
+theorem lookup_registered (r : Regy) (t : Ty) (h : r.Registered t) : (lookup true r t).1 = r := by
+  unfold lookup
+  split
+  · split
+    · split
+      · rfl
+      · exact registerComposer_registered_nil r t h
+    · exact registerComposer_registered_nil r t h
+  · exact registerComposer_registered_nil r t h
+
+/-- the twins: `reuse.RTwin` (type 0) registered first with function 9, `twin.RTwin` (type 1) later: it owns "RTwin" -/
+def twins : Regy :=
+  { names := [("RTwin", 1), ("twin/RTwin", 1), ("RTwin", 0), ("reuse/RTwin", 0)], ents := [⟨0, some 9⟩, ⟨1, none⟩] }
+
+example : twins.Registered ⟨0, "RTwin", "reuse/RTwin"⟩ := ⟨0, ⟨0, some 9⟩, by decide, by decide, rfl⟩
+example : twins.Registered ⟨1, "RTwin", "twin/RTwin"⟩ := ⟨1, ⟨1, none⟩, by decide, by decide, rfl⟩
+
+/-- without the guard, filling a `reuse.RTwin` (found by its full name only) wipes its function -/
+theorem lookup_unguarded_loses_fn :
+    (lookup false twins ⟨0, "RTwin", "reuse/RTwin"⟩).1.ents = [⟨0, none⟩, ⟨1, none⟩] ∧
+    (lookup true twins ⟨0, "RTwin", "reuse/RTwin"⟩).1 = twins := by decide
 
 end OjgVerif.Reuse.Shared
